@@ -6,8 +6,11 @@ import (
 	"encoding/json"
 	"fmt"
 	"io"
+	"reflect"
 	"sort"
+	"strconv"
 	"strings"
+	"time"
 
 	"seehuhn.de/go/postscript"
 	"seehuhn.de/go/postscript/afm"
@@ -76,7 +79,7 @@ var Type1 = Target{"type1.Read", func(r io.Reader) (string, error) {
 	}
 	raw, jerr := json.Marshal(f)
 	if jerr != nil {
-		return fmt.Sprintf("%+v", f), nil
+		return Render(f), nil
 	}
 	return string(raw), nil
 }}
@@ -88,7 +91,7 @@ var AFM = Target{"afm.Read", func(r io.Reader) (string, error) {
 	}
 	raw, jerr := json.Marshal(m)
 	if jerr != nil {
-		return fmt.Sprintf("%+v", m), nil
+		return Render(m), nil
 	}
 	return string(raw), nil
 }}
@@ -112,4 +115,72 @@ func ByName(name string) (Target, bool) {
 		}
 	}
 	return Target{}, false
+}
+
+// Render renders a value deterministically (pointers followed, map keys
+// sorted, NaN and infinities spelled out): the digest of results that JSON
+// cannot express.
+func Render(v any) string {
+	var sb strings.Builder
+	render(&sb, reflect.ValueOf(v), 0)
+	return sb.String()
+}
+
+func render(sb *strings.Builder, v reflect.Value, depth int) {
+	if depth > 12 || !v.IsValid() {
+		sb.WriteString("?")
+		return
+	}
+	if v.CanInterface() {
+		if tm, ok := v.Interface().(time.Time); ok {
+			sb.WriteString(tm.UTC().Format(time.RFC3339Nano))
+			return
+		}
+	}
+	switch v.Kind() {
+	case reflect.Ptr, reflect.Interface:
+		if v.IsNil() {
+			sb.WriteString("nil")
+			return
+		}
+		render(sb, v.Elem(), depth+1)
+	case reflect.Struct:
+		sb.WriteString("{")
+		for i := 0; i < v.NumField(); i++ {
+			if !v.Type().Field(i).IsExported() {
+				continue
+			}
+			sb.WriteString(v.Type().Field(i).Name + ":")
+			render(sb, v.Field(i), depth+1)
+			sb.WriteString(" ")
+		}
+		sb.WriteString("}")
+	case reflect.Map:
+		keys := v.MapKeys()
+		sort.Slice(keys, func(i, j int) bool { return fmt.Sprint(keys[i]) < fmt.Sprint(keys[j]) })
+		sb.WriteString("map[")
+		for _, k := range keys {
+			fmt.Fprintf(sb, "%q:", fmt.Sprint(k))
+			render(sb, v.MapIndex(k), depth+1)
+			sb.WriteString(" ")
+		}
+		sb.WriteString("]")
+	case reflect.Slice, reflect.Array:
+		if v.Kind() == reflect.Slice && v.IsNil() {
+			sb.WriteString("nil")
+			return
+		}
+		sb.WriteString("[")
+		for i := 0; i < v.Len(); i++ {
+			render(sb, v.Index(i), depth+1)
+			sb.WriteString(" ")
+		}
+		sb.WriteString("]")
+	case reflect.Float32, reflect.Float64:
+		sb.WriteString(strconv.FormatFloat(v.Float(), 'g', -1, 64))
+	case reflect.String:
+		fmt.Fprintf(sb, "%q", v.String())
+	default:
+		fmt.Fprint(sb, v.Interface())
+	}
 }
